@@ -152,6 +152,41 @@ def support_mask(run, cf, rule='R12.support'):
               '(Y has both bits set)' % (bad if bad else ('', '')))
 
 
+def rotation_gate_rule(run, repo, eff, crel):
+    """clifford_rotation_gate: generator condensed to its support, placed on the qubits of that support (mapped through the labels given)."""
+    # rotation gate
+    rg = repo.func(crel, 'clifford_rotation_gate')
+    effect.check_pure(run, eff, rg)
+    bind.check_function_calls(run, repo, rg, only={'Pauli', 'CliffordGate', 'condense'})
+    gens = [st for st, _ in walk(rg.node) if isinstance(st, ast.Assign) and norm(st.targets[0]).endswith('.generator')]
+    GEN, QB = rg.posparams[0], rg.posparams[1]
+    cd = [st for st, _ in walk(rg.node) if isinstance(st, ast.Assign) and isinstance(st.value, ast.Call) and norm(st.value.func) == 'condense']
+    okc = len(cd) == 1 and norm(cd[0].value.args[0]) == '%s.g' % GEN and isinstance(cd[0].targets[0], ast.Tuple) and len(cd[0].targets[0].elts) == 2 \
+        and all(isinstance(e, ast.Name) for e in cd[0].targets[0].elts)
+    run.check(okc, 'R2.gate', rg, 'condense(generator.g)', 'support and condensed string come from the same condense call')
+    GC, QC = ([e.id for e in cd[0].targets[0].elts] if okc else ['g_cond', 'qubits_cond'])
+    ok = len(gens) == 1 and norm(gens[0].value).replace(' ', '') == 'Pauli(%s,%s.p)' % (GC, GEN)
+    run.check(ok, 'R2.gate', rg, gens[0] if gens else 'generator', 'the gate generator is the condensed string with the sign of the generator')
+    qs = {}
+    G = __import__('pcverif.rules.guards', fromlist=['x'])
+    for st, ctx in walk(rg.node):
+        if isinstance(st, ast.Assign) and norm(st.targets[0]) == QB:
+            if isinstance(st.value, ast.IfExp):        # one conditional expression instead of if / else
+                t = st.value.test
+                none, _ = G.entails(((t, True),), [('%s is None' % QB, True)])
+                given, _ = G.entails(((t, False),), [('%s is None' % QB, True)])
+                if none:
+                    qs['none'], qs['given'] = norm(st.value.body).replace(' ', ''), norm(st.value.orelse).replace(' ', '')
+                elif given:
+                    qs['none'], qs['given'] = norm(st.value.orelse).replace(' ', ''), norm(st.value.body).replace(' ', '')
+                continue
+            none, _ = G.entails(ctx.conds, [('%s is None' % QB, True)])
+            qs['none' if none else 'given'] = norm(st.value).replace(' ', '')
+    run.check(qs == {'none': QC, 'given': '%s[%s]' % (QB, QC)}, 'R2.gate', rg, 'qubits', 'the gate acts on the support, mapped through the supplied qubit labels (found %s)' % qs)
+    gctor = [c for c in ast.walk(rg.node) if isinstance(c, ast.Call) and norm(c.func) == 'CliffordGate']
+    run.check(len(gctor) == 1 and norm(gctor[0].args[0]).replace(' ', '') == '*qubits', 'R2.gate', rg, 'CliffordGate(*qubits)', 'the gate is placed on those qubits')
+
+
 class _FixedSlot(Exception):
     pass
 
@@ -408,37 +443,7 @@ def check(run):
         run.check(bool(raises), 'R11.types', dg, 'else: raise', 'other argument types are rejected')
         rets = [norm(st.value) for st, _ in walk(dg.node) if isinstance(st, ast.Return)]
         run.check(rets == ['circ'], 'R2.encode', dg, 'return circ', 'the built circuit is returned')
-        # rotation gate
-        rg = repo.func(crel, 'clifford_rotation_gate')
-        effect.check_pure(run, eff, rg)
-        bind.check_function_calls(run, repo, rg, only={'Pauli', 'CliffordGate', 'condense'})
-        gens = [st for st, _ in walk(rg.node) if isinstance(st, ast.Assign) and norm(st.targets[0]).endswith('.generator')]
-        GEN, QB = rg.posparams[0], rg.posparams[1]
-        cd = [st for st, _ in walk(rg.node) if isinstance(st, ast.Assign) and isinstance(st.value, ast.Call) and norm(st.value.func) == 'condense']
-        okc = len(cd) == 1 and norm(cd[0].value.args[0]) == '%s.g' % GEN and isinstance(cd[0].targets[0], ast.Tuple) and len(cd[0].targets[0].elts) == 2 \
-            and all(isinstance(e, ast.Name) for e in cd[0].targets[0].elts)
-        run.check(okc, 'R2.gate', rg, 'condense(generator.g)', 'support and condensed string come from the same condense call')
-        GC, QC = ([e.id for e in cd[0].targets[0].elts] if okc else ['g_cond', 'qubits_cond'])
-        ok = len(gens) == 1 and norm(gens[0].value).replace(' ', '') == 'Pauli(%s,%s.p)' % (GC, GEN)
-        run.check(ok, 'R2.gate', rg, gens[0] if gens else 'generator', 'the gate generator is the condensed string with the sign of the generator')
-        qs = {}
-        G = __import__('pcverif.rules.guards', fromlist=['x'])
-        for st, ctx in walk(rg.node):
-            if isinstance(st, ast.Assign) and norm(st.targets[0]) == QB:
-                if isinstance(st.value, ast.IfExp):        # one conditional expression instead of if / else
-                    t = st.value.test
-                    none, _ = G.entails(((t, True),), [('%s is None' % QB, True)])
-                    given, _ = G.entails(((t, False),), [('%s is None' % QB, True)])
-                    if none:
-                        qs['none'], qs['given'] = norm(st.value.body).replace(' ', ''), norm(st.value.orelse).replace(' ', '')
-                    elif given:
-                        qs['none'], qs['given'] = norm(st.value.orelse).replace(' ', ''), norm(st.value.body).replace(' ', '')
-                    continue
-                none, _ = G.entails(ctx.conds, [('%s is None' % QB, True)])
-                qs['none' if none else 'given'] = norm(st.value).replace(' ', '')
-        run.check(qs == {'none': QC, 'given': '%s[%s]' % (QB, QC)}, 'R2.gate', rg, 'qubits', 'the gate acts on the support, mapped through the supplied qubit labels (found %s)' % qs)
-        gctor = [c for c in ast.walk(rg.node) if isinstance(c, ast.Call) and norm(c.func) == 'CliffordGate']
-        run.check(len(gctor) == 1 and norm(gctor[0].args[0]).replace(' ', '') == '*qubits', 'R2.gate', rg, 'CliffordGate(*qubits)', 'the gate is placed on those qubits')
+        rotation_gate_rule(run, repo, eff, crel)
         # condense
         cf = repo.func(urel, 'condense')
         parallel.mask_expansion(run, cf)
